@@ -3,6 +3,7 @@ import Driver.OpsAlign
 import Driver.OpsParser
 import Driver.OpsIndex
 import Driver.OpsKmer
+import Driver.OpsPipeline
 /-! Line-protocol driver: one operation per input line, one result per output line.
     Unknown or malformed operations print `bad-op` (never a default value). -/
 open Driver
@@ -10,6 +11,7 @@ open Driver
 def handlers : List (List String → Option String) := [opsQual, opsAlign, opsIndex, opsKmer, opsParser]
 
 def step (line : String) : String :=
+  if line.startsWith "pipeline " then opPipeline (line.drop 9).toString else
   let toks := (line.trimAscii.toString.splitOn " ").filter (· ≠ "")
   match handlers.findSome? (fun h => h toks) with
   | some r => r
